@@ -67,6 +67,7 @@ type Cfg struct {
 	// Schedule knobs
 	Jumps       bool                   // occasionally jump block time across cycle/year boundaries
 	Absents     bool                   // occasionally starve a validator of votes
+	DtFn        func(h int64) int64    // overrides the block time step (milliseconds) of block h when it returns > 0
 	ForceAbsent func(h int64) []string // validators (hex addresses) that do not sign the commit of block h-1, on top of the schedule
 	Evid        bool                   // occasionally include duplicate-vote evidence
 	// Hooks
@@ -137,6 +138,11 @@ func Run(cfg Cfg) *Result {
 			plan.Txs = cfg.FilterPlan(c, plan.Txs)
 		}
 		plan.DtMs, plan.Absent, plan.Evidence = sched.next(c)
+		if cfg.DtFn != nil {
+			if dt := cfg.DtFn(c.H); dt > 0 {
+				plan.DtMs = dt
+			}
+		}
 		if cfg.ForceAbsent != nil {
 			plan.Absent = append(plan.Absent, cfg.ForceAbsent(c.H)...)
 		}
@@ -191,6 +197,8 @@ func (s *schedule) next(c *gen.Ctx) (dt int64, absent []string, ev []proto.Evide
 			dt = 3600 * 1000 * 24 * 40 // forty days: crosses year boundaries in a few jumps
 		case 2:
 			dt = 1000
+		case 3:
+			dt = 2 * 3600 * 1000 // two hours: more than an hour, less than a day
 		}
 	}
 	if s.cfg.Absents && c.H > 2 {
